@@ -1,13 +1,518 @@
+// C16 — bounded concurrent tables behave as maps and stay within capacity.
+//
+// The entry binary is race-instrumented. It runs nothing itself: every phase is
+// executed by re-running this binary as a child with GORACE=log_path (reports
+// are logged, not fatal) and C16_PHASE=<phase>; the parent merges the children's
+// counters/violations and scans the race logs.
+//
+//	seq    sequential reference-map differential: UInt64Map, SegmentUInt64Map,
+//	       SyncUInt64Map, cache.Cache (seq.go) and the wrappers users hold:
+//	       PositiveCache, NegativeCache, authority.Cache, FailureCache,
+//	       LimiterStore (wrappers.go)
+//	conc   concurrent histories judged by porcupine (lin.go), over-capacity
+//	       concurrent runs (evict.go), the no-global-lock monitor and the
+//	       concurrent-Clear monitor (nolock.go); run at several GOMAXPROCS
 package main
 
 import (
+	"encoding/json"
 	"fmt"
+	"os"
+	"runtime"
+	"strconv"
+	"strings"
+	"sync"
+	"time"
 
-	"github.com/semihalev/sdns/internal/cache"
+	"github.com/anishathalye/porcupine"
+	"github.com/semihalev/sdns/zzverif/vlib"
 )
 
+type ctx struct {
+	r  *vlib.Run
+	ko *keyOracle
+	lo int // share of each case list handled by this process, in percent [lo,hi)
+	hi int
+}
+
+func (c *ctx) mine(i, n int) bool { return i >= c.lo*n/100 && i < c.hi*n/100 }
+
+const rule = "distinct_nontrivial = sequential scripts that reached growth, a wrapped probe chain or an eviction, plus concurrent histories with at least one pair of overlapping operations on the same key; interleavings = distinct call/return event orders"
+
 func main() {
-	c := cache.New(10)
-	c.Add(1, 1)
-	fmt.Println(c.VerifC16Reachable(), c.VerifC16Stored(), c.VerifC16SegmentOf(1))
+	r := vlib.Start("C16", "exploration")
+	c := &ctx{r: r, ko: newKeyOracle(), lo: 0, hi: 100}
+	if s := os.Getenv("C16_SHARE"); s != "" {
+		if a, b, ok := strings.Cut(s, ":"); ok {
+			c.lo, _ = strconv.Atoi(a)
+			c.hi, _ = strconv.Atoi(b)
+		}
+	}
+	if rc := r.ReplayCase(); rc != nil {
+		replay(c, rc)
+		r.Finish(rule)
+	}
+	switch os.Getenv("C16_PHASE") {
+	case "seq":
+		phaseSeq(c)
+	case "conc":
+		phaseConc(c)
+	default:
+		parent(c)
+	}
+	r.Note("key_construction_verified_by_hooks", c.ko.constructive)
+	if c.ko.fallbacks > 0 {
+		r.Count("keygen_fallbacks", c.ko.fallbacks)
+	}
+	r.Finish(rule)
+}
+
+func parent(c *ctx) {
+	r := c.r
+	type child struct {
+		name  string
+		phase string
+		share string
+		procs string
+	}
+	// GOMAXPROCS sweep for the schedule-dependent phases; the last child keeps
+	// whatever the caller set (default: all cores).
+	kids := []child{
+		{"seq", "seq", "0:100", ""},
+		{"conc-p2", "conc", "0:20", "2"},
+		{"conc-p6", "conc", "20:45", "6"},
+		{"conc-pN", "conc", "45:100", ""},
+	}
+	timeout := time.Duration(r.N(300, 2400)) * time.Second
+	self, err := os.Executable()
+	if err != nil {
+		self = vlib.BinPath("c16", "race")
+	}
+	var wg sync.WaitGroup
+	var mu sync.Mutex
+	prefixes := []string{}
+	run := func(k child) {
+		defer wg.Done()
+		pfx := r.RacePrefix(k.name)
+		mu.Lock()
+		prefixes = append(prefixes, pfx)
+		mu.Unlock()
+		env := []string{vlib.RaceEnv(pfx), "C16_PHASE=" + k.phase, "C16_SHARE=" + k.share}
+		if k.procs != "" {
+			env = append(env, "GOMAXPROCS="+k.procs)
+		}
+		res := r.Child(k.name, nil, self, nil, env, timeout)
+		switch {
+		case res.TimedOut:
+			r.Inconclusive(fmt.Sprintf("child %s hit the %v watchdog (log %s)", k.name, timeout, res.Output))
+		case !res.HasState:
+			r.Inconclusive(fmt.Sprintf("child %s ended without reporting (exit %d, log %s)", k.name, res.ExitCode, res.Output))
+		}
+		r.Count("children_completed", 1)
+	}
+	// the sequential child runs beside the first concurrent children (it adds
+	// scheduling noise to them, which is welcome); the all-cores child runs alone
+	wg.Add(3)
+	go run(kids[0])
+	go run(kids[1])
+	go run(kids[2])
+	wg.Wait()
+	wg.Add(1)
+	run(kids[3])
+	for _, p := range prefixes {
+		r.ScanRaceLogs(p)
+	}
+	r.Note("gomaxprocs_sweep", []string{"2", "6", fmt.Sprint(runtime.GOMAXPROCS(0))})
+
+	for _, t := range []string{"uint64map", "segment", "sync", "cache"} {
+		r.Require("ops_"+t, 20000)
+	}
+	r.Require("seq_scripts", 200)
+	r.Require("grow_events", 100)
+	r.Require("wrap_states", 100)
+	r.Require("del_with_wrapped_chain", 100)
+	r.Require("collide_states_probe_ge3", 100)
+	r.Require("zero_key_ops", 100)
+	r.Require("seq_cas_ok", 50)
+	r.Require("seq_cas_fail", 50)
+	r.Require("seq_cad_ok", 50)
+	r.Require("seq_cad_fail", 50)
+	r.Require("seq_evictions", 100)
+	r.Require("wrap_ops", 2000)
+	r.Require("lin_histories", 100)
+	r.Require("lin_ok", 100)
+	r.Require("lin_overlapping_pairs", 500)
+	r.Require("lin_cas_ok", 20)
+	r.Require("lin_cas_fail", 20)
+	r.Require("lin_cad_ok", 10)
+	r.Require("lin_cad_fail", 10)
+	r.Require("evict_runs", 8)
+	r.Require("evict_reads_judged", 10000)
+	r.Require("evict_len_samples", 1000)
+	r.Require("evictions_observed", 100)
+	r.Require("evict_cas_ok", 20)
+	r.Require("nolock_ops_completed_under_held_lock", 50)
+	r.Require("nolock_same_segment_writer_blocked", 5)
+	r.Require("nolock_evicting_cases", 3)
+	r.Require("conc_clear_runs", 4)
+	r.Require("children_completed", 4)
+	r.Assume("the Go race detector and porcupine v1.3.0 are trusted")
+	r.Assume("CLOCK_MONOTONIC is consistent across CPUs (call/return stamps come from time.Since of one base instant)")
+	r.Assume("the 'no global lock' clause is decided only as: operations on another segment complete while the harness holds one segment's write lock; ratelimit.LimiterStore is a single-mutex map by documented design and is exempt from that clause")
+}
+
+// ---------------------------------------------------------------- phase: sequential
+
+func phaseSeq(c *ctx) {
+	r := c.r
+	type job struct {
+		table string
+		idx   int
+	}
+	per := map[string]int{"uint64map": r.N(700, 9000), "segment": r.N(450, 6000), "sync": r.N(250, 3000), "cache": r.N(600, 8000)}
+	var jobs []job
+	for _, t := range []string{"uint64map", "segment", "sync", "cache"} {
+		for i := 0; i < per[t]; i++ {
+			if c.mine(i, per[t]) {
+				jobs = append(jobs, job{t, i})
+			}
+		}
+	}
+	ch := make(chan job)
+	var wg sync.WaitGroup
+	workers := runtime.GOMAXPROCS(0)
+	for w := 0; w < workers; w++ {
+		wg.Add(1)
+		go func() {
+			defer wg.Done()
+			ko := newKeyOracle() // per worker: the oracle's probe tables are not shared
+			cc := &ctx{r: r, ko: ko}
+			for j := range ch {
+				sc := genSeqCase(cc, j.table, j.idx)
+				var st seqStats
+				f := runSeqCase(sc, &st)
+				st.flush(r, j.table)
+				r.Eval(1)
+				r.Count("seq_scripts", 1)
+				if st.grows > 0 || st.wrapStates > 0 || st.evictions > 0 {
+					r.Distinct(fmt.Sprintf("seq/%s/%d", j.table, j.idx))
+				}
+				r.DistinctIn("seq_key_classes", j.table+"/"+sc.Class)
+				if f != nil {
+					sc.FailAt = f.at
+					if f.at+1 < len(sc.Ops) {
+						sc.Ops = sc.Ops[:f.at+1]
+					}
+					r.Violation(f.sig, fmt.Sprintf("%s script %d (%s keys), op %d %+v: %s", j.table, j.idx, sc.Class, f.at, sc.Ops[len(sc.Ops)-1], f.what), sc)
+				} else if j.idx < 2 {
+					r.Sample(map[string]any{"phase": "seq", "table": j.table, "class": sc.Class, "ops": len(sc.Ops), "grows": st.grows, "evictions": st.evictions, "max_probe": st.maxProbe})
+				}
+				r.Progress("seq %s #%d", j.table, j.idx)
+			}
+			if ko.fallbacks > 0 {
+				r.Count("keygen_fallbacks", ko.fallbacks)
+			}
+		}()
+	}
+	for _, j := range jobs {
+		ch <- j
+	}
+	close(ch)
+	wg.Wait()
+
+	// wrappers (single goroutine each; cheap)
+	type wjob struct {
+		name string
+		n    int
+		f    func(*ctx, int, *wrapStats) *seqFail
+	}
+	wj := []wjob{
+		{"positive", r.N(60, 800), func(c *ctx, i int, s *wrapStats) *seqFail { return runWrapAnswer(c, "positive", i, s) }},
+		{"negative", r.N(30, 400), func(c *ctx, i int, s *wrapStats) *seqFail { return runWrapAnswer(c, "negative", i, s) }},
+		{"delegation", r.N(12, 120), runWrapDelegation},
+		{"failure", r.N(60, 800), runWrapFailure},
+		{"limiter", r.N(60, 800), runWrapLimiter},
+	}
+	type wj1 struct {
+		w wjob
+		i int
+	}
+	wch := make(chan wj1)
+	for w := 0; w < workers; w++ {
+		wg.Add(1)
+		go func() {
+			defer wg.Done()
+			cc := &ctx{r: r, ko: newKeyOracle()}
+			for j := range wch {
+				var st wrapStats
+				f := j.w.f(cc, j.i, &st)
+				r.Eval(1)
+				r.Count("wrap_ops", st.ops)
+				r.Count("wrap_ops_"+j.w.name, st.ops)
+				r.Count("wrap_evictions", st.evictions)
+				r.Count("wrap_expired_deleted_by_get", st.expired)
+				r.Count("wrap_failure_cas_renewals", st.casRenewals)
+				if f != nil {
+					r.Violation(f.sig, fmt.Sprintf("%s wrapper script %d, op %d: %s", j.w.name, j.i, f.at, f.what), wrapCase{"wrap", j.w.name, j.i, f.at})
+				}
+			}
+		}()
+	}
+	for _, w := range wj {
+		for i := 0; i < w.n; i++ {
+			if c.mine(i, w.n) {
+				wch <- wj1{w, i}
+			}
+		}
+	}
+	close(wch)
+	wg.Wait()
+}
+
+// ---------------------------------------------------------------- phase: concurrent
+
+const linTimeout = 30 * time.Second
+
+func judgeLin(c *ctx, res *linResult) {
+	r := c.r
+	p := res.params
+	r.Eval(1)
+	r.Count("lin_histories", 1)
+	r.Count("lin_histories_"+p.Table, 1)
+	r.Count("lin_ops", len(res.ops))
+	r.Count("lin_cas_ok", res.casOK)
+	r.Count("lin_cas_fail", res.casFail)
+	r.Count("lin_cad_ok", res.cadOK)
+	r.Count("lin_cad_fail", res.cadFail)
+	if res.grew {
+		r.Count("lin_histories_with_growth", 1)
+	}
+	if res.wrapped {
+		r.Count("lin_histories_with_wrapped_chain", 1)
+	}
+	ov := overlaps(res.ops)
+	r.Count("lin_overlapping_pairs", ov)
+	r.Max("lin_max_goroutines", int64(p.Goroutines))
+	h := interleavingHash(res.ops)
+	r.DistinctIn("interleavings", h)
+	if ov > 0 {
+		r.Distinct("lin/" + h)
+	}
+	if res.direct != nil {
+		r.Violation(res.direct.sig, fmt.Sprintf("%s history %d (%d goroutines, keys %s): %s", p.Table, p.Index, p.Goroutines, p.Placement, res.direct.what), linCase{linParams: p, Ops: res.ops})
+		return
+	}
+	verdict, lc := checkLin(res, linTimeout)
+	switch verdict {
+	case porcupine.Ok:
+		r.Count("lin_ok", 1)
+	case porcupine.Unknown:
+		r.Count("lin_unknown", 1)
+		r.Inconclusive(fmt.Sprintf("porcupine timed out after %v on %s history %d (%d ops)", linTimeout, p.Table, p.Index, len(res.ops)))
+	case porcupine.Illegal:
+		r.Count("lin_illegal", 1)
+		r.Violation("lin/"+p.Table+"/not-linearizable", fmt.Sprintf("%s history %d (%d goroutines, %d ops): the operations on key %#x cannot be explained by any sequential order of a register with remove/CAS/compare-delete consistent with their call/return times", p.Table, p.Index, p.Goroutines, len(res.ops), lc.FailKey), lc)
+	}
+}
+
+func phaseConc(c *ctx) {
+	r := c.r
+	r.Note("gomaxprocs_"+os.Getenv("C16_SHARE"), runtime.GOMAXPROCS(0))
+
+	// (2) linearizability: histories run one at a time (they want the cores);
+	// the checker runs behind them on a small pool
+	nLin := map[string]int{"cache": r.N(260, 4000), "segment": r.N(130, 2000), "sync": r.N(80, 1200)}
+	checkCh := make(chan *linResult, 64)
+	var cwg sync.WaitGroup
+	for w := 0; w < 3; w++ {
+		cwg.Add(1)
+		go func() {
+			defer cwg.Done()
+			for res := range checkCh {
+				judgeLin(c, res)
+			}
+		}()
+	}
+	for _, t := range []string{"cache", "segment", "sync"} {
+		for i := 0; i < nLin[t]; i++ {
+			if !c.mine(i, nLin[t]) {
+				continue
+			}
+			res := runLinHistory(c, t, i)
+			if i < 1 && c.lo == 0 {
+				r.Sample(map[string]any{"phase": "lin", "table": t, "goroutines": res.params.Goroutines, "ops": len(res.ops), "hot_keys": len(res.params.Hot), "overlapping_pairs": overlaps(res.ops)})
+			}
+			checkCh <- res
+			r.Progress("lin %s #%d", t, i)
+		}
+	}
+	close(checkCh)
+	cwg.Wait()
+
+	// (3) over capacity
+	nEv := r.N(24, 240)
+	for i := 0; i < nEv; i++ {
+		if !c.mine(i, nEv) {
+			continue
+		}
+		res := runEvict(c, i)
+		p := res.params
+		r.Eval(1)
+		r.Count("evict_runs", 1)
+		r.Count("evict_reads_judged", res.reads)
+		r.Count("evict_mutations", res.stores)
+		r.Count("evict_len_samples", res.lenSamples)
+		r.Count("evict_len_samples_above_capacity", res.lenOverCap)
+		r.Count("evictions_observed", res.evicted)
+		r.Count("evict_cas_ok", res.casOK)
+		r.Count("evict_cad_ok", res.cadOK)
+		if res.wrapped > 0 {
+			r.Count("evict_runs_ending_with_wrapped_chain", 1)
+		}
+		if res.grewTo > 8 {
+			r.Count("evict_runs_with_segment_growth", 1)
+		}
+		r.Max("evict_max_len_minus_capacity", res.lenMax-int64(p.Capacity))
+		r.Max("evict_max_writers", int64(p.Writers))
+		r.Distinct(fmt.Sprintf("evict/%d", i))
+		if i < 2 {
+			r.Sample(map[string]any{"phase": "evict", "capacity": p.Capacity, "writers": p.Writers, "readers": p.Readers, "universe": p.Universe, "max_sampled_len": res.lenMax, "final_len": res.finalLen, "reads_judged": res.reads, "evicted_at_quiescence": res.evicted})
+		}
+		if res.fail != nil {
+			r.Violation(res.fail.sig, fmt.Sprintf("over-capacity run %d (capacity %d, %d writers, %d readers, %s keys): %s", i, p.Capacity, p.Writers, p.Readers, p.Class, res.fail.what), res.failCase)
+		}
+		r.Progress("evict #%d", i)
+	}
+
+	// (4) no global lock
+	nNL := r.N(40, 400)
+	for i := 0; i < nNL; i++ {
+		if !c.mine(i, nNL) {
+			continue
+		}
+		res := runNoLock(c, i)
+		r.Eval(1)
+		r.Count("nolock_cases", 1)
+		r.Count("nolock_ops_completed_under_held_lock", res.done)
+		if res.blocked {
+			r.Count("nolock_same_segment_writer_blocked", 1)
+		}
+		if res.evicting {
+			r.Count("nolock_evicting_cases", 1)
+		}
+		if res.inconc != "" {
+			r.Inconclusive(res.inconc)
+		}
+		if res.fail != nil {
+			r.Violation(res.fail.sig, res.fail.what, res.cs)
+		}
+	}
+
+	// (7) Clear racing with writers
+	nCl := r.N(10, 100)
+	for i := 0; i < nCl; i++ {
+		if !c.mine(i, nCl) {
+			continue
+		}
+		f, cs := runConcClear(c, i)
+		r.Eval(1)
+		r.Count("conc_clear_runs", 1)
+		if f != nil {
+			r.Count("conc_clear_miscounts", 1)
+			r.Violation(f.sig, f.what, cs)
+		}
+	}
+}
+
+// ---------------------------------------------------------------- replay
+
+func replay(c *ctx, raw json.RawMessage) {
+	r := c.r
+	var head struct {
+		Kind string `json:"kind"`
+	}
+	_ = json.Unmarshal(raw, &head)
+	switch head.Kind {
+	case "seq":
+		var sc seqCase
+		if err := json.Unmarshal(raw, &sc); err != nil {
+			r.Fatalf("replay: %v", err)
+		}
+		var st seqStats
+		f := runSeqCase(&sc, &st)
+		r.Eval(1)
+		if f != nil {
+			r.Violation(f.sig, fmt.Sprintf("replayed %s script, op %d: %s", sc.Table, f.at, f.what), sc)
+		}
+	case "lin":
+		var lc linCase
+		if err := json.Unmarshal(raw, &lc); err != nil {
+			r.Fatalf("replay: %v", err)
+		}
+		// a schedule cannot be re-executed; the recorded history is re-judged
+		res := &linResult{params: lc.linParams, ops: lc.Ops}
+		v, out := checkLin(res, linTimeout)
+		r.Eval(1)
+		if v == porcupine.Illegal {
+			r.Violation("lin/"+lc.Table+"/not-linearizable", fmt.Sprintf("recorded history re-judged: key %#x not linearizable", out.FailKey), out)
+		}
+	case "evict":
+		var ec evCase
+		if err := json.Unmarshal(raw, &ec); err != nil {
+			r.Fatalf("replay: %v", err)
+		}
+		r.Eval(1)
+		if ec.Read != nil {
+			if kind, what, rd := judgeReads(ec.Read.K, ec.Stores, []evRead{*ec.Read}); kind != "" {
+				ec.Read = rd
+				r.Violation("evict/"+kind, "recorded read re-judged: "+what, ec)
+			}
+		} else {
+			res := runEvict(c, ec.Index) // same parameters and op scripts, a new schedule
+			if res.fail != nil {
+				r.Violation(res.fail.sig, res.fail.what, res.failCase)
+			}
+		}
+	case "nolock":
+		var nc nolockCase
+		if err := json.Unmarshal(raw, &nc); err != nil {
+			r.Fatalf("replay: %v", err)
+		}
+		res := execNoLock(c, r.RandN("nolock", nc.Index), nc)
+		r.Eval(1)
+		if res.fail != nil {
+			r.Violation(res.fail.sig, res.fail.what, res.cs)
+		}
+	case "clear":
+		var cc clearCase
+		_ = json.Unmarshal(raw, &cc)
+		for i := 0; i < 20; i++ { // schedule-dependent: a few attempts
+			if f, cs := runConcClear(c, cc.Index); f != nil {
+				r.Violation(f.sig, f.what, cs)
+				break
+			}
+		}
+		r.Eval(1)
+	case "wrap":
+		var wc wrapCase
+		_ = json.Unmarshal(raw, &wc)
+		var st wrapStats
+		var f *seqFail
+		switch wc.Wrapper {
+		case "positive", "negative":
+			f = runWrapAnswer(c, wc.Wrapper, wc.Index, &st)
+		case "delegation":
+			f = runWrapDelegation(c, wc.Index, &st)
+		case "failure":
+			f = runWrapFailure(c, wc.Index, &st)
+		case "limiter":
+			f = runWrapLimiter(c, wc.Index, &st)
+		}
+		r.Eval(1)
+		if f != nil {
+			r.Violation(f.sig, f.what, wrapCase{"wrap", wc.Wrapper, wc.Index, f.at})
+		}
+	default:
+		r.Fatalf("replay: unknown case kind %q", head.Kind)
+	}
 }
